@@ -675,6 +675,10 @@ func (g *cg) varsBlock() *node {
 		}
 		if g.bad(15, "var-cycle") {
 			val = g.quote("{vars."+name+"}", false)
+			if g.pct(60, "var-cycle3") { // a cycle over three names: Compile reports it from a map-order dependent start
+				ks = append(ks, st(name+"b", g.quote("{vars."+name+"c}", false)), st(name+"c", g.quote("x{vars."+name+"}", false)))
+				val = g.quote("{vars."+name+"b}", false)
+			}
 		}
 		if g.bad(10, "wild") {
 			name = g.wild()
@@ -818,13 +822,10 @@ func (g *cg) program() string {
 	if g.pct(10, "no-final-newline") {
 		out = strings.TrimRight(out, "\n")
 	}
-	switch g.n("eol", 0, 9) {
-	case 0:
+	if g.pct(12, "crlf") {
 		out = strings.ReplaceAll(out, "\n", "\r\n")
-	case 1:
-		if l.messy {
-			out = strings.ReplaceAll(out, "\n", "\r") // classic Mac line ends: normalizeInput maps CR to LF
-		}
+	} else if l.messy && g.pct(10, "cr-only") {
+		out = strings.ReplaceAll(out, "\n", "\r") // classic Mac line ends: normalizeInput maps CR to LF
 	}
 	if g.pct(8, "bom") {
 		out = "\xef\xbb\xbf" + out
